@@ -192,6 +192,7 @@ fn drain_wake_log(out: &mut Vec<(u16, u8)>) -> bool {
 
 thread_local! {
     static LAST_PANIC: RefCell<Option<String>> = const { RefCell::new(None) };
+    static FIRST_PANIC: RefCell<Option<String>> = const { RefCell::new(None) };
     pub static QUIET_PANICS: std::cell::Cell<bool> = const { std::cell::Cell::new(false) };
 }
 
@@ -208,11 +209,22 @@ pub fn install_panic_hook() {
                 "<non-string panic>".to_string()
             };
             let loc = info.location().map(|l| format!(" at {}:{}", l.file(), l.line())).unwrap_or_default();
+            FIRST_PANIC.with(|p| {
+                let mut p = p.borrow_mut();
+                if p.is_none() {
+                    *p = Some(msg.clone());
+                }
+            });
             LAST_PANIC.with(|p| *p.borrow_mut() = Some(format!("{}{}", msg, loc)));
         } else {
             default(info);
         }
     }));
+}
+
+/// the first panic message since the last call (L3: shuttle re-panics after the original)
+pub fn take_first_panic() -> Option<String> {
+    FIRST_PANIC.with(|p| p.borrow_mut().take())
 }
 
 pub fn take_last_panic() -> Option<String> {
